@@ -96,6 +96,16 @@ def plan(tier, seed):
     # kernel is about 1000 times slower); workers started with that switch.  (Seeded calls
     # only: an unseeded interpreted kernel has no other source of randomness than NumPy's
     # global generator, so that combination is outside what the statement can mean.)
+    # the mask depends only on the arguments and the seed - not on the size of the numba thread
+    # pool of the process: seeded requests in a worker with four threads, compared with the
+    # mask a one-thread interpreter returns
+    for i in range(3 if quick else 16):
+        shape = [int(rng.integers(24, 65)), int(rng.integers(24, 65))]
+        P.add("poisson", shape=shape, accel=float(np.round(rng.uniform(2, 6), 2)),
+              calib=[int(pick(rng, [0, 4, 8])) for _ in range(2)], tol=0.2,
+              seed=int(rng.integers(0, 1000)), crop=bool(rng.random() < 0.5), dtype="float64",
+              prior=int(rng.integers(0, 1 << 30)) // 4 * 4, adv=int(rng.integers(0, 1000)),
+              threads=4, timeout=600)
     for i in range(10 if quick else 80):
         shape = [int(rng.integers(8, 15)), int(rng.integers(8, 15))]
         P.add("poisson", shape=shape, accel=float(np.round(rng.uniform(1.4, 12), 2)),
@@ -258,6 +268,35 @@ def run_case(case):
         return violated(sig, "second call with equal arguments did not return a mask", wit,
                         mech="reproducibility")
     checks += 1
+    if case.get("threads") and case["seed"] is not None:
+        import hashlib
+        import os
+        import subprocess
+        import sys
+        import numba
+        if numba.get_num_threads() != case["threads"]:
+            return inconclusive("this worker's numba thread pool has %d threads" %
+                                numba.get_num_threads(), sig="threads-not-active")
+        code = ("import numpy as np, hashlib, sigpy.mri as mr;"
+                "m = mr.poisson(%r, %r, calib=%r, dtype=np.%s, crop_corner=%r, seed=%r, tol=%r);"
+                "print('H=' + hashlib.sha1(np.ascontiguousarray(m).tobytes()).hexdigest())" % (
+                    (ny, nx), float(accel), (cy, cx), dtype.name, bool(case["crop"]),
+                    int(case["seed"]), float(tol)))
+        env = dict(os.environ, NUMBA_NUM_THREADS="1")
+        try:
+            pr = subprocess.run([sys.executable, "-c", code], env=env, capture_output=True,
+                                text=True, timeout=300)
+            h1 = [l for l in pr.stdout.splitlines() if l.startswith("H=")]
+        except subprocess.TimeoutExpired:
+            h1 = []
+        if not h1:
+            return inconclusive("one-thread reference interpreter gave no mask", sig="threads-ref")
+        checks += 1
+        if h1[0][2:] != hashlib.sha1(np.ascontiguousarray(mask).tobytes()).hexdigest():
+            return violated(sig, "the mask of a process with %d numba threads differs from the "
+                            "mask a one-thread process returns for the same arguments and seed"
+                            % case["threads"], wit, mech="thread-count")
+        sig += "|threads%d" % case["threads"]
     if case["seed"] is None:
         # unseeded: no two masks need agree; the second one obeys the same static clauses
         m2 = np.real(mask2) > 0
